@@ -47,8 +47,9 @@ def body(ctx):
     handover(ctx, prog, viol)
     header(ctx, prog, viol)
     write_interest(ctx, prog, viol)
-    import c08
+    import c08, c18
     c08.loop_done(ctx, prog)   # the loop does not end (and the socket is not dropped) with queued bytes unwritten
+    c18.report_registration(ctx, c18.registration(ctx, prog))   # what a handle enqueues is picked up: every open channel is polled unless throttled, channels opened later included
     wi = [v for v in viol if v[0] in ('write-interest', 'interest-panic')]
     viol = [v for v in viol if v[0] not in ('write-interest', 'interest-panic')]
     if wi:
